@@ -7,6 +7,30 @@ TRUST = ("Trusted: go/types+go/ssa (x/tools v0.29.0) and ruxvc's SSA semantics; 
          "(unsat answers); assumed extern contracts listed per run in evidence.coverage.trusted_base; int is mathematical. ")
 
 CLAIMS = {
+ "C04": dict(
+   text="Contract proof of the chain protocol: Context.Next is proved, against a rely/guarantee contract on HandlerFunc values, to start handlers in chain order, each at most once and none skipped, whatever each handler does with Next() (ghost counter started(c), exact int8 cursor arithmetic, loop invariant, no bound on the chain other than the documented 63); combineHandlers, Route.Use and Router.Use are proved to build the lists in the documented order.",
+   note=TRUST + "Relies on R-handler/R-cursor (user handlers act only through the Context API and do not drive the int8 cursor to 127). The composition 'every handler is a composition of API calls' is a meta-argument.",
+   design="6/C04"),
+ "C05": dict(
+   text="Contract proof: Abort/AbortThen/AbortWithStatus set the cursor to the sentinel and the ghost flag aborted(c); Next is proved not to start any handler when the cursor is at or past the end of the chain (so nothing starts after an abort, whoever calls Next again), abort is sticky, IsAborted is true after an abort; AbortWithStatus determines the pending/sent status unless already committed. The converse half of IsAborted (true only after an abort) is a known finding (cursor drift in chains of >= 33 nesting handlers).",
+   note=TRUST + "Chains within the documented limit (len <= 63) as a precondition; rely on handler behaviour as for C04.",
+   design="6/C05"),
+ "C10": dict(
+   text="Contract proof: Context.Init/Reset and responseWriter.reset are proved, from a completely unconstrained (havocked) previous context state, to establish the pristine state (cursor -1, no data/params/errors/handlers, Resp rebound to the context's own writer, request and writer bound to the new ones, status 0, length -1).",
+   note=TRUST + "sync.Pool is assumed to hand out contexts no other goroutine holds.",
+   design="6/C10"),
+ "C11": dict(
+   text="Contract proof in the SMT theory of strings: formatPath and simpleFmtPath are total (no panic for any byte string, both StrictLastSlash settings) and always return a path in normal form (one leading slash, no second slash, no trailing slash unless strict); the whitespace-only input that used to panic is fixed and kept as a canary mutant.",
+   note=TRUST + "strings.TrimSpace/TrimLeft/TrimRight are assumed contracts (exact for ASCII white space, sound for multi-byte white space). The whole-string equations relating registration and lookup normalisation (L1/L2 in DESIGN.md) are not decided deductively.",
+   design="6/C11"),
+ "C13": dict(
+   text="Contract proof of the registration-side validators: goodInfo accepts only routes with a handler and with every method exactly one of the nine supported names (the prefix-match defect is fixed), Route.Use rejects chains of 63 or more handlers, and formatPath never panics on any input string.",
+   note=TRUST + "parseParamRoute / regexp-level validation is not covered yet.",
+   design="6/C13"),
+ "C14": dict(
+   text="Contract proof of the LRU container: for an arbitrary cache state satisfying the representation invariant (so for every Set/Get/Has/Delete/Len history), every operation preserves the invariant, never exceeds the capacity (0 and 1 included), makes the key just stored or read the most recent, evicts exactly the least recently used key when full, replaces the value of an existing key, and deletes only the given key; whole-view postconditions, so corrupting other keys fails.",
+   note=TRUST + "container/list is an assumed rank model (ghost membership, recency stamps, back witness); sync.RWMutex a ghost lock state.",
+   design="6/C14"),
  "C08": dict(
    text="Contract proof: every method of responseWriter and every status/length/write method of Context is proved, for an arbitrary pre-state satisfying the writer invariant (so for every operation history), to preserve 'exactly one WriteHeader on the underlying writer, before any body byte or flush, carrying the last positive status recorded before the commit (200 if none)', with the body log and Length() growing by exactly the bytes the underlying writer accepted (short writes and errors included).",
    note=TRUST + "The underlying http.ResponseWriter/Flusher is modelled by a ghost call log (assumed extern contracts). Hijack is excluded. The induction over operation sequences (invariant + per-operation postconditions) is the standard meta-argument, not an SMT query.",
@@ -54,6 +78,8 @@ def main():
     print("claimed:", sorted(CLAIMS), "n/a:", [x["property_id"] for x in na])
 
 NA = {}
-SOURCE_COMMITS = ["78dc240"]
+SOURCE_COMMITS = ["78dc240"]  # regenerated below from git log
+import subprocess
+SOURCE_COMMITS = subprocess.run(["git","-C","/repo","log","--format=%h","--grep=^verif:"],capture_output=True,text=True).stdout.split()
 if __name__ == "__main__":
     main()
